@@ -2,6 +2,7 @@ SPECIFICATION Spec
 CONSTANT Configs <- ConfigsFull
 CONSTANT RandVals <- RandValsFull
 CONSTANT K = 2
+CONSTANT SkipSame = "no"
 CONSTANT defaultInitValue = 0
 INVARIANT InvP1
 INVARIANT InvP2
